@@ -1,8 +1,8 @@
 CONSTANTS
   GC = FALSE
   Broken = "none"
-  MaxOps = 12
-  Family = "main"
+  MaxOps = 3
+  Family = "patch"
   Reinstantiate = FALSE
 SPECIFICATION Spec
 INVARIANT OneInstance
